@@ -5,7 +5,7 @@ Import ListNotations.
 Open Scope Z_scope.
 
 (* ---- exceptions / result monad ------------------------------------------------------------ *)
-Inductive exn := ValueError | KeyError | TypeError | AttributeError | StructError | AssertionError | OtherExn.
+Inductive exn := ValueError | KeyError | TypeError | AttributeError | StructError | AssertionError | AssemblerError | OtherExn.
 Inductive res (A : Type) := Ok (a : A) | Err (e : exn).
 Arguments Ok {A}. Arguments Err {A}.
 Definition bind {A B} (r : res A) (f : A -> res B) : res B :=
@@ -15,7 +15,7 @@ Definition guard (b : bool) (e : exn) : res unit := if b then Err e else Ok tt.
 Definition exn_eqb (a b : exn) : bool :=
   match a, b with
   | ValueError, ValueError | KeyError, KeyError | TypeError, TypeError | AttributeError, AttributeError
-  | StructError, StructError | AssertionError, AssertionError | OtherExn, OtherExn => true
+  | StructError, StructError | AssertionError, AssertionError | AssemblerError, AssemblerError | OtherExn, OtherExn => true
   | _, _ => false
   end.
 
@@ -133,3 +133,8 @@ Fixpoint dec_pos (fuel : nat) (n : Z) (acc : list ascii) : list ascii :=
   end.
 Definition dec_of_Z (z : Z) : string :=
   if z <? 0 then String "-"%char (unchars (dec_pos 80 (- z) [])) else unchars (dec_pos 80 z []).
+
+(* ---- the view of an item that the compression predicates see ---------------------------------- *)
+(* getattr(i, f) for the register fields (AttributeError when the class has no such field), i.name, and
+   i.imm.eval(position, env, line) (an AssemblerError when the expression does not evaluate) *)
+Record iview := { iv_name : string; iv_attr : string -> res arg; iv_imm : res Z }.
